@@ -35,6 +35,7 @@ func (mach *unmarshalMachineMapStringWildcard) Reset(slab *unmarshalSlab, rv ref
 	mach.valueZero_rv = reflect.Zero(mach.value_rt)
 	key_rt := rt.Key()
 	mach.key_rv = reflect.New(key_rt).Elem()
+	mach.keyDestringer = nil // this machine may have served a map with transformed keys before
 	if mach.key_rv.Kind() != reflect.String {
 		rtid := reflect.ValueOf(key_rt).Pointer()
 		atlEnt, ok := slab.atlas.Get(rtid)
